@@ -107,8 +107,8 @@ class Run:
                 # no executable counterexample: the replay file names the failed obligation and carries the verifier's output
                 o.replay = write_replay(self.prop, o.oid, f"print({o.oid!r})\nprint({str(o.detail)!r})\nprint('no failing input was constructed for this obligation')\nsys.exit(2)\n",
                                         header=str(o.detail))
-                o.detail = 'no-failing-input-found: ' + str(o.detail)
-            tail = '' if (o.replay and not str(o.detail or '').startswith('no-failing-input-found')) else ' no-failing-input-found'
+                o.sample = 'no-failing-input-found'
+            tail = '' if (o.replay and o.sample != 'no-failing-input-found' and not str(o.detail or '').startswith('no-failing-input-found')) else ' no-failing-input-found'
             print(f'VIOLATION property={self.prop} replay={o.replay or "-"} obligation={o.oid}{tail}')
         if len(violations) > 60:
             print(f'... and {len(violations) - 60} more violated obligations of {self.prop} (listed in the evidence file)')
